@@ -560,7 +560,10 @@ class SCML_Supervised(_BaseSCML, TransformerMixin):
     """
 
     if isinstance(self.basis, str) and self.basis == 'lda':
-      basis, n_basis = self._generate_bases_LDA(X, y)
+      # points with a negative label are unlabeled: like for the triplets,
+      # only the labeled points take part in the construction of the bases
+      known = y >= 0
+      basis, n_basis = self._generate_bases_LDA(X[known], y[known])
     else:
       basis, n_basis = None, None
 
